@@ -3,7 +3,7 @@
     Oracle side: for a closed goal, a verdict of the verified evaluator is the truth value of
     the goal (both directions) and singles out which of [Unique] / [NoSolution] meets the
     contract. *)
-From Chalk Require Import Logic.Contract.
+From Chalk Require Import Logic.Contract Logic.Fuel.
 
 Theorem eval_correct : forall (fuel : nat) (P : program) (env : list clause) (rho : list ty) (g : goal) (b : bool),
   rr (allc P env) -> eval_goal fuel P env rho g = Some b -> (b = true <-> sat P env rho g).
@@ -20,3 +20,11 @@ Check closed_answer_exact : forall (fuel : nat) (P : program) (env : list clause
   rr (allc P env) -> eval_goal fuel P env [] g = Some b ->
   (contract P env (closed_query g) (AUnique [] []) <-> b = true) /\
   (contract P env (closed_query g) ANone <-> b = false).
+
+Theorem eval_goal_fuel_sufficient : forall (g : goal) (fuel0 : nat) (P : program) (env : list clause) (rho : list ty) (n F : nat),
+  goal_ready fuel0 P env rho g = Some n -> fuel0 <= F -> n < F ->
+  exists b, eval_goal F P env rho g = Some b.
+Proof. exact Fuel.eval_goal_fuel_sufficient. Qed.
+Check eval_goal_fuel_sufficient : forall (g : goal) (fuel0 : nat) (P : program) (env : list clause) (rho : list ty) (n F : nat),
+  goal_ready fuel0 P env rho g = Some n -> fuel0 <= F -> n < F ->
+  exists b, eval_goal F P env rho g = Some b.
